@@ -6,7 +6,7 @@ sub-checks over the cores, restarts a shard behind a case that died (sanitizer r
 every report through the violation machinery and aggregates the driver's counters into the evidence.
 
   exhaustive  all dims 0..3 (thorough 0..4) x entries in {-1,0,1,2}; all assignments when the operands have
-              <= 8 (thorough 10) entries, otherwise a deterministic subset of 4096 (65536); exact comparison
+              <= 9 (thorough 10) entries, otherwise a deterministic subset of 16384 (65536); exact comparison
   random      sizes <= 30, constructed condition number: identities judged for kappa <= 1e4 with tolerance
               100*n*eps*kappa*scale; kappa 1e8..1e14 and exactly singular: only "no sanitizer report / crash"
               (non-finite results without an exception are counted in the evidence, not reported)
@@ -30,7 +30,7 @@ NSHARD = 64
 
 def _params(tier, sub):
     if sub == "exhaustive":
-        return tier_n(tier, ["--maxdim", "3", "--allk", "8", "--budget", "4096"],
+        return tier_n(tier, ["--maxdim", "3", "--allk", "9", "--budget", "16384"],
                       ["--maxdim", "4", "--allk", "10", "--budget", "65536"])
     return []
 
@@ -115,7 +115,7 @@ def _san_prefix(rr):
     """'<file>:<line>#<hash>|' of the innermost library frame: makes the key readable and its replay file name unique
     (the runner truncates file names at 80 characters, before the frames that tell two reports apart)."""
     import hashlib
-    m = re.search(r"#\d+ 0x[0-9a-f]+ in .*? /repo/lib/matvec/([\w.]+):(\d+)", rr.err or "")
+    m = re.search(r"#\d+ 0x[0-9a-f]+ in .*? /\S*?/lib/matvec/([\w.]+):(\d+)", rr.err or "")
     loc = "%s:%s" % (m.group(1), m.group(2)) if m else "?"
     h = hashlib.sha1((rr.san["key"] if rr.san else "rc%s" % rr.rc).encode()).hexdigest()[:4]
     return "%s#%s|" % (loc, h)
@@ -142,9 +142,9 @@ def run(tier, seed):
     rr = runner.run([exe, "leak", "count"])
     nlk = int(rr.out.split()[0])
     plan.append(("exhaustive", nex))
-    plan.append(("random", nrf * tier_n(tier, 150, 1500)))
-    plan.append(("history", tier_n(tier, 4000, 40000)))
-    plan.append(("conform", ncf * tier_n(tier, 12, 60)))
+    plan.append(("random", nrf * tier_n(tier, 600, 4000)))
+    plan.append(("history", tier_n(tier, 16000, 120000)))
+    plan.append(("conform", ncf * tier_n(tier, 40, 200)))
     jobs = []
     for sub, total in plan:
         ns = min(NSHARD, total)
@@ -230,8 +230,8 @@ def run(tier, seed):
         "Vec*TransMat is judged as b'*A (its own dimension check and TransVec result admit no other conforming reading)",
         "TransMat*scalar cannot be instantiated (transmat.h:67 does not compile) and is not covered",
     ]
-    ck.minimum = dict(evaluations=tier_n(tier, 300000, 3000000), distinct=150,
-                      cases_exhaustive=nex, cases_random=100, cases_history=100, cases_conform=ncf, cases_leak=nlk)
+    ck.minimum = dict(evaluations=tier_n(tier, 1000000, 10000000), distinct=150,
+                      cases_exhaustive=nex, cases_random=1000, cases_history=1000, cases_conform=ncf, cases_leak=nlk)
     return ck.finish()
 
 
